@@ -2,7 +2,7 @@
 from __future__ import annotations
 import ast, itertools
 from ..core import expr as X
-from ..core.interp import PathExplorer, Interp, Obj, FuncRef, Opaque, RaiseSignal, Frame
+from ..core.interp import PathExplorer, Interp, Obj, FuncRef, Opaque, RaiseSignal, Frame, ArrBox
 from ..core.report import AnalysisError
 from ..frontend.pyfront import Repo
 from .common import need_class, need_func, methods
@@ -201,31 +201,46 @@ def run(chk):
             pairs = pairs + [(d_, f_) for d_ in DEFERRED for f_ in followups]
             pairs = pairs + [(d_, f_) for d_ in (list(DEFERRED)[:1] if chk.tier == 'quick' else DEFERRED) for f_ in RESEND if ('spin' not in f_ or True)]
             seqs = [(m,) for m in singles] + pairs
-            for seq in seqs:
+            # second pass with numpy arrays as state values (mutable cells: `x = y` aliases, `x op= c` updates in place): the driver's own arrays must come back intact
+            array_seqs = [(m,) for m in singles] + (pairs if chk.tier != 'quick' else pairs[:3])
+            for arrays, seq in [(False, q_) for q_ in seqs] + [(True, q_) for q_ in array_seqs]:
                 nseq += 1
                 st0 = state_atoms('0')
                 final = dict(st0)
+                handed = []          # (label, cell, value) of every array the driver handed over
 
                 def history(fork, seq=seq, st0=st0, final=final):
                     it = make_interp(repo)
                     it.hooks['fork'] = fork
-                    s = build(repo, it, st0, use_ctl, obliq_on)
+                    it.array_mode = arrays
+                    del handed[:]
+
+                    def hand(label, v):
+                        if not arrays: return v
+                        if isinstance(v, tuple): return tuple(hand(f'{label}[{j}]', x_) for j, x_ in enumerate(v))
+                        c_ = ArrBox(v); handed.append((label, c_, v))
+                        return c_
+                    stb = {k_: (hand(f'initial {k_}', v_) if k_ in ('Q', 'dt', 'spin', 'obl', 'e', 'a') else v_) for k_, v_ in st0.items()}
+                    s = build(repo, it, stb, use_ctl, obliq_on)
                     full_init(it, s)
                     call(it, s.world, 'orbit_spin_changed', orbital_freq_changed=True, spin_freq_changed=True, eccentricity_changed=True, obliquity_changed=True)
                     for i, mname in enumerate(seq):
                         key, fn_ = MUTATORS[mname]
                         if key == 'Q+dt':
                             newv = (X.atom(f'Q{i + 1}', 'pos'), X.atom(f'dt{i + 1}', 'pos'))
-                            fn_(it, s, newv)
+                            fn_(it, s, hand(f'step {i + 1} value', newv))
                             final['Q'], final['dt'] = newv
                             continue
                         if key == 'same':
                             fn_(it, s, None)
                             continue
                         newv = X.atom(f'{key}{i + 1}', 'pos' if key in ('e', 'a', 'Q', 'dt') else 'real')
-                        fn_(it, s, newv)
+                        fn_(it, s, hand(f'step {i + 1} value', newv))
                         final[key] = newv
-                    return exposed(s)
+                    out_ = {q_: (X.lift(v_) if isinstance(v_, ArrBox) else v_) for q_, v_ in exposed(s).items()}
+                    if arrays:
+                        out_['__handed__'] = [(lab_, c_.v, v_) for lab_, c_, v_ in handed]
+                    return out_
                 try:
                     # a tolerance test on the state (np.allclose(new, current)) may come out either way for values that differ: both outcomes are histories
                     got, path_label = explore_history(history)
@@ -237,6 +252,9 @@ def run(chk):
                 except RaiseSignal as ex:
                     raise AnalysisError(f'sequence {seq} on {model}: unexpected raise {ex.text}')
                 bad = []
+                for lab_, now_, was_ in got.pop('__handed__', []):
+                    if now_ is not was_ and not d.equal(now_, was_):
+                        bad.append(f'the array the driver passed as {lab_} is modified in place')
                 for q in sorted(set(got) | set(ref)):
                     a_, b_ = got.get(q), ref.get(q)
                     if a_ is None and b_ is None: continue
@@ -245,8 +263,8 @@ def run(chk):
                     if not d.equal(a_, b_):
                         r_, sc = d.residual(a_, b_)
                         bad.append(f'{q.lstrip("_")} differs from a fresh world in the final state (float residual {r_:.3g} on scale {sc:.3g})')
-                inst = f'{model}: after {" ; ".join(seq)} every exposed tidal quantity equals that of a fresh world in the final state'
-                chk.ob('R13.3', inst, not bad, '; '.join(bad[:4]) + (path_label if bad else ''), where_t, key=f'R13.3|{model}|{"+".join(seq)}', method='abstract object graph + GF(p^2) PIT')
+                inst = f'{model}{", array-valued state" if arrays else ""}: after {" ; ".join(seq)} every exposed tidal quantity equals that of a fresh world in the final state'
+                chk.ob('R13.3', inst, not bad, '; '.join(bad[:4]) + (path_label if bad else ''), where_t, key=f'R13.3|{model}{"|arrays" if arrays else ""}|{"+".join(seq)}', method='abstract object graph + GF(p^2) PIT')
     chk.note_analysed('mutator_sequences', nseq)
     # ---- R13.7 the layered model (per-layer rheology, LayeredTides): same question on a three-layer world
     from . import c13_layered
